@@ -61,6 +61,7 @@ RECS = {
     "r5": ({"body": "f=2&g=1"}, True),     # collides under ignore_payload_params=[f] and ignore_content
     "r6": ({"port": 81}, True),            # collides under ignore_port
     "r7": ({"h": "B"}, True),              # differs only under use_headers=[h]
+    "r8": ({"target": "/p?x=3&x=1"}, True),  # repeated parameter name; the last value equals r0's, an earlier one is extra
 }
 REQS = {
     "q0": {},
@@ -73,6 +74,8 @@ REQS = {
     "q7": {"target": "/p"},                # no x at all: equal under ignore_params=[x]
     "q8": {"target": "/other?x=1"},        # never equal
     "q9": {"method": "PUT"},               # never equal
+    "qa": {"target": "/p?x=2&x=1"},        # repeated name: equal to no recording unless x is ignored (differs from r8 in the earlier value)
+    "qb": {"target": "/p?x=3&x=1"},        # equal to r8
 }
 TOGGLES = {
     "ignore_host": ("server_replay_ignore_host", False, True),
@@ -87,10 +90,11 @@ HASH_TOGGLES = ["ignore_host", "ignore_port", "ignore_content", "ignore_params",
 EXTRAS = ["forward", "kill", "204"]
 
 # recording order interleaves the near-colliding recordings with the two fully equal ones
-INITIAL = ["r0", "r2", "r4", "r1", "r3"]
-QUICK = {"initial": INITIAL, "addable": ["r5"], "requests": ["q0", "q1", "q2", "q3", "q4"]}
-THOROUGH = {"initial": INITIAL, "addable": ["r5", "r6", "r7"],
-            "requests": ["q0", "q1", "q2", "q3", "q4", "q5", "q6", "q7", "q8", "q9"]}
+# (the response-less r3 is not last, so that a recording appended later competes with a servable older one)
+INITIAL = ["r0", "r2", "r4", "r3", "r1"]
+QUICK = {"initial": INITIAL, "addable": ["r5"], "requests": ["q0", "q1", "q2", "q3", "q4", "qa"]}
+THOROUGH = {"initial": INITIAL, "addable": ["r5", "r6", "r7", "r8"],
+            "requests": ["q0", "q1", "q2", "q3", "q4", "q5", "q6", "q7", "q8", "q9", "qa", "qb"]}
 
 
 def desc(diff):
@@ -372,7 +376,7 @@ class Spec:
 
 def run(ctx):
     alpha = THOROUGH if ctx.thorough else QUICK
-    depth = ctx.pick(4, 5)
+    depth = 5  # long enough for serve, serve, add, change a matching option, request
     ctx.bounds = {
         "depth": depth,
         "base_request": BASE,
